@@ -969,3 +969,156 @@ Theorem C03_run_atomic_exists :
 Proof. exact run_atomic_exists. Qed.
 Print Assumptions C03_run_atomic_exists.
 
+(* COHERENCE OVER EXECUTIONS: an edge of the modification order between live stores of a is never lost along the steps of an execution *)
+Theorem C03_steps_stable :
+  forall (p : prog) (pa : path) (a : nat) (s0 : atomic_state) (e e' : exec) 
+         (s : atomic_state) (x y : nat),
+       get_atomic (init_exec p pa) a = Some s0 ->
+       RunOK p pa a ->
+       steps (init_exec p pa) e ->
+       steps e e' ->
+       get_atomic e a = Some s ->
+       x < at_cnt s ->
+       y < at_cnt s ->
+       vv_lt (mo s x) (mo s y) = true ->
+       exists s' : atomic_state,
+         get_atomic e' a = Some s' /\
+         x < at_cnt s' /\ y < at_cnt s' /\ vv_lt (mo s' x) (mo s' y) = true.
+Proof. exact steps_stable. Qed.
+Print Assumptions C03_steps_stable.
+
+(* a store that a thread's clock has seen stays seen *)
+Theorem C03_steps_knows :
+  forall (p : prog) (pa : path) (a : nat) (s0 : atomic_state) (e e' : exec) 
+         (s : atomic_state) (u i : nat),
+       get_atomic (init_exec p pa) a = Some s0 ->
+       RunOK p pa a ->
+       steps (init_exec p pa) e ->
+       steps e e' ->
+       get_atomic e a = Some s ->
+       u < MAX_THREADS ->
+       i < at_cnt s ->
+       is_seen_by_current (st_seen (get_store s i)) (caus_of e u) = true ->
+       exists s' : atomic_state,
+         get_atomic e' a = Some s' /\
+         i < at_cnt s' /\ is_seen_by_current (st_seen (get_store s' i)) (caus_of e' u) = true.
+Proof. exact steps_knows. Qed.
+Print Assumptions C03_steps_knows.
+
+(* CoRR / CoWR over executions: once thread t knows store j of a, in every later state of the execution neither a load by t (with the clock MLoadPost uses) nor an RMW has a store that was mo-before j among its candidates *)
+Theorem C03_CoRR_CoWR_steps :
+  forall (p : prog) (pa : path) (a : nat) (s0 : atomic_state) (e e' : exec) 
+         (s : atomic_state) (t i j : nat),
+       get_atomic (init_exec p pa) a = Some s0 ->
+       RunOK p pa a ->
+       steps (init_exec p pa) e ->
+       steps e e' ->
+       get_atomic e a = Some s ->
+       t < MAX_THREADS ->
+       i < at_cnt s ->
+       j < at_cnt s ->
+       vv_lt (mo s i) (mo s j) = true ->
+       is_seen_by_current (st_seen (get_store s j)) (caus_of e t) = true ->
+       exists s' : atomic_state,
+         get_atomic e' a = Some s' /\
+         (forall (ly : option nat) (o : ord) (l : list nat),
+          match_load_to_stores s' t (vv_inc (caus_of e' t) t) ly o = Some l -> ~ In i l) /\
+         (forall l : list nat, match_rmw_to_stores s' = Some l -> ~ In i l).
+Proof. exact CoRR_CoWR_steps. Qed.
+Print Assumptions C03_CoRR_CoWR_steps.
+
+
+Require Import LV.Base LV.VV LV.VVFacts LV.Path LV.PathSpec LV.PathTerm LV.PathDistinct LV.PathApi LV.Prog LV.Objects LV.Exec LV.Atomic LV.Ops LV.Check LV.AtomicFacts LV.AtomicCoherence LV.AtomicCoRR LV.AtomicClosure LV.AtomicBridge LV.NotifyFacts LV.ClockFacts LV.SyncMono LV.AtomicRun LV.AtomicRun2.
+
+(* THE SAME WITH TWO OF THE FOUR RUN HYPOTHESES DISCHARGED (AtomicRun2.v): t_rel <= t_caus and the thread bound are invariants of executions (for configurations with max_threads <= MAX_THREADS); RunOK2 keeps only `the replayed index is a candidate` and `the ring has not wrapped` *)
+(* every thread's released clock is below its clock in every reachable state *)
+Theorem C03_run_rel_le_caus :
+  forall (p : prog) (pa : path) (e : exec) (i : nat) (t : thread),
+       max_threads (p_cfg p) <= MAX_THREADS ->
+       steps (init_exec p pa) e -> nth_error (e_threads e) i = Some t -> vle (t_rel t) (t_caus t).
+Proof. exact run_rel_le_caus. Qed.
+Print Assumptions C03_run_rel_le_caus.
+
+(* at most MAX_THREADS threads in every reachable state *)
+Theorem C03_run_threads_bound :
+  forall (p : prog) (pa : path) (e : exec),
+       max_threads (p_cfg p) <= MAX_THREADS ->
+       steps (init_exec p pa) e -> length (e_threads e) <= MAX_THREADS.
+Proof. exact run_threads_bound. Qed.
+Print Assumptions C03_run_threads_bound.
+
+(* the two-hypothesis condition implies the four-hypothesis one *)
+Theorem C03_RunOK2_RunOK :
+  forall (p : prog) (pa : path) (a : nat),
+       max_threads (p_cfg p) <= MAX_THREADS -> RunOK2 p pa a -> RunOK p pa a.
+Proof. exact RunOK2_RunOK. Qed.
+Print Assumptions C03_RunOK2_RunOK.
+
+(* the headline under RunOK2 *)
+Theorem C03_run_goodAt2 :
+  forall (p : prog) (pa : path) (a : nat) (s0 : atomic_state) (e : exec),
+       max_threads (p_cfg p) <= MAX_THREADS ->
+       get_atomic (init_exec p pa) a = Some s0 ->
+       RunOK2 p pa a -> steps (init_exec p pa) e -> GoodAt a e.
+Proof. exact run_goodAt2. Qed.
+Print Assumptions C03_run_goodAt2.
+
+(* RMW atomicity in every reachable state under RunOK2 *)
+Theorem C03_run_atomicity2 :
+  forall (p : prog) (pa : path) (a : nat) (s0 : atomic_state) (e : exec) 
+         (s : atomic_state) (r sl sid : nat),
+       max_threads (p_cfg p) <= MAX_THREADS ->
+       get_atomic (init_exec p pa) a = Some s0 ->
+       RunOK2 p pa a ->
+       steps (init_exec p pa) e ->
+       get_atomic e a = Some s ->
+       r < at_cnt s ->
+       st_rmw_src (get_store s r) = Some (sl, sid) ->
+       sl < at_cnt s /\
+       vv_lt (mo s sl) (mo s r) = true /\
+       (forall x : nat, x < at_cnt s -> vv_lt (mo s sl) (mo s x) && vv_lt (mo s x) (mo s r) = false).
+Proof. exact run_atomicity2. Qed.
+Print Assumptions C03_run_atomicity2.
+
+(* no mo edge is lost along an execution, under RunOK2 *)
+Theorem C03_steps_stable2 :
+  forall (p : prog) (pa : path) (a : nat) (s0 : atomic_state) (e e' : exec) 
+         (s : atomic_state) (x y : nat),
+       max_threads (p_cfg p) <= MAX_THREADS ->
+       get_atomic (init_exec p pa) a = Some s0 ->
+       RunOK2 p pa a ->
+       steps (init_exec p pa) e ->
+       steps e e' ->
+       get_atomic e a = Some s ->
+       x < at_cnt s ->
+       y < at_cnt s ->
+       vv_lt (mo s x) (mo s y) = true ->
+       exists s' : atomic_state,
+         get_atomic e' a = Some s' /\
+         x < at_cnt s' /\ y < at_cnt s' /\ vv_lt (mo s' x) (mo s' y) = true.
+Proof. exact steps_stable2. Qed.
+Print Assumptions C03_steps_stable2.
+
+(* CoRR / CoWR over executions, under RunOK2 *)
+Theorem C03_CoRR_CoWR_steps2 :
+  forall (p : prog) (pa : path) (a : nat) (s0 : atomic_state) (e e' : exec) 
+         (s : atomic_state) (t i j : nat),
+       max_threads (p_cfg p) <= MAX_THREADS ->
+       get_atomic (init_exec p pa) a = Some s0 ->
+       RunOK2 p pa a ->
+       steps (init_exec p pa) e ->
+       steps e e' ->
+       get_atomic e a = Some s ->
+       t < MAX_THREADS ->
+       i < at_cnt s ->
+       j < at_cnt s ->
+       vv_lt (mo s i) (mo s j) = true ->
+       is_seen_by_current (st_seen (get_store s j)) (caus_of e t) = true ->
+       exists s' : atomic_state,
+         get_atomic e' a = Some s' /\
+         (forall (ly : option nat) (o : ord) (l : list nat),
+          match_load_to_stores s' t (vv_inc (caus_of e' t) t) ly o = Some l -> ~ In i l) /\
+         (forall l : list nat, match_rmw_to_stores s' = Some l -> ~ In i l).
+Proof. exact CoRR_CoWR_steps2. Qed.
+Print Assumptions C03_CoRR_CoWR_steps2.
+
